@@ -522,18 +522,22 @@ func (s *sharedEntryAttributes) getRegularDeletes(deletes []DeleteEntry, aggrega
 			// so if we have an old and a new best cases (not "") and the names are different,
 			// all the old to the deletion list
 			if oldBestCaseName != "" && newBestCaseName != "" && oldBestCaseName != newBestCaseName {
-				// try fetching the case from the childs
-				oldBestCaseEntry, exists := s.childs.GetEntry(oldBestCaseName)
-				if exists {
-					deletes = append(deletes, oldBestCaseEntry)
-				} else {
+				// a case is no node of the data tree, the elements that make up the old case are to be deleted
+				for _, elemName := range v.getOldPopulatedElementNames(oldBestCaseName) {
+					// try fetching the element from the childs
+					oldCaseElemEntry, exists := s.childs.GetEntry(elemName)
+					if exists {
+						deletes = append(deletes, oldCaseElemEntry)
+						continue
+					}
 					// it might be that the child is not loaded into the tree, but just considered from the treecontext cache for the choice/case resolution
 					// if so, we create and return the DeleteEntryImpl struct
 					path, err := s.SdcpbPath()
 					if err != nil {
 						return nil, err
 					}
-					deletes = append(deletes, NewDeleteEntryImpl(path, append(s.Path(), oldBestCaseName)))
+					path.Elem = append(path.Elem, &sdcpb.PathElem{Name: elemName})
+					deletes = append(deletes, NewDeleteEntryImpl(path, append(s.Path(), elemName)))
 				}
 			}
 		}
